@@ -206,6 +206,9 @@ def run_case(base, case, acc):
                     if status == "optimal":
                         acc.violation(f"C06/{kind}/moma/status-optimal-although-infeasible", f"deleting {sorted(ids)}: status optimal but the knocked-out problem is infeasible", w())
                         break
+                    if growth == growth:
+                        acc.violation(f"C06/{kind}/moma/growth-reported-although-infeasible", f"deleting {sorted(ids)}: growth {growth} ({status}) although the knocked-out problem has no solution (NaN expected, as for fba)", w())
+                        break
                     continue
                 D, gmin, gmax = m
                 if status != "optimal" or growth != growth:
